@@ -72,7 +72,10 @@ func DefaultSet(d string) bool {
 func ClassFormerF07(accept, dflt string) bool { return accept == "" && DefaultSet(dflt) }
 
 // ClassF07b: non-empty header the router admits, none of whose well-formed ranges is satisfiable
-// (all produced types are registered in this stream, so "satisfiable" = */* or produced).
+// (all produced types are registered in this stream, so "satisfiable" = */* or produced).  Since
+// 8b400b4 the answer inside the class is a function of the request (the registered type that occurs
+// first in the raw header, else the default type, else the first produced type: C05_F07b_inside) —
+// a failing case is excused only when the real answers are exactly the model's.
 func ClassF07b(accept string, produces []string) bool {
 	if accept == "" || !AcceptOK(produces, accept) {
 		return false
